@@ -83,16 +83,17 @@ def Linked (a : Nat) (m : MState) (t : HState) : Prop :=
 
 /-- What the task was told about the piece it is fetching is what the torrent lists for that index. -/
 def RxListed (T : Torrent) (t : HState) : Prop :=
-  ∀ rx, t.pieceRx = some rx → rx.hash = T.hashes.getD rx.index [] ∧ rx.buff.length = T.plen rx.index
+  ∀ rx, t.pieceRx = some rx → rx.hash = T.hashes.getD rx.index []
 
 /-! ### Any number of connections -/
 
 /-- The whole client: the manager, one task per address (an address without a connection is a dead task), and the ghost
-    list of piece indices for which some task has written a piece file. -/
+    list of the piece files written so far: (index of the piece the writing task was fetching, the hash the file is named
+    by, the hash of the data written). -/
 structure Sys where
   m : MState
   tasks : Nat → HState
-  stored : List Nat
+  stored : List (Nat × Bytes × Bytes)
 
 def updateTask (f : Nat → HState) (a : Nat) (t : HState) : Nat → HState := fun b => if b = a then t else f b
 
@@ -100,9 +101,11 @@ def isSave : HOut → Bool
   | .save _ _ => true
   | _ => false
 
-/-- What a step of a task stored: the piece it was fetching, if a piece file was written. -/
-def savedIdx (t : HState) (outs : List HOut) : List Nat :=
-  if outs.any isSave then (t.pieceRx.map (·.index)).toList else []
+/-- The piece files a step of a task wrote (`<HEX(name)>.piece` with `data`), tagged with the piece it was fetching. -/
+def savedBy (sha1 : Bytes → Bytes) (t : HState) (outs : List HOut) : List (Nat × Bytes × Bytes) :=
+  match t.pieceRx with
+  | some rx => outs.filterMap fun | .save name data => some (rx.index, name, sha1 data) | _ => none
+  | none => []
 
 /-- A new connection task: alive, nothing being fetched, choked by the peer (`PeerHandler::new`). -/
 def FreshTask (t : HState) : Prop := t.alive = true ∧ t.pieceRx = none ∧ t.choked = true
@@ -115,7 +118,7 @@ inductive SysStep (T : Torrent) (sha1 : Bytes → Bytes) : Sys → Sys → Prop 
       SysStep T sha1 S { S with m := m', tasks := updateTask S.tasks a t }
   | own (S : Sys) (a : Nat) (d : Option (Bytes × Bytes)) (inp : HIn) (m' : MState) (t' : HState) (outs : List HOut) :
       LStepO T sha1 (diskOf d) a S.m (S.tasks a) inp m' t' outs →
-      SysStep T sha1 S { m := m', tasks := updateTask S.tasks a t', stored := savedIdx (S.tasks a) outs ++ S.stored }
+      SysStep T sha1 S { m := m', tasks := updateTask S.tasks a t', stored := savedBy sha1 (S.tasks a) outs ++ S.stored }
 
 inductive SysReach (T : Torrent) (sha1 : Bytes → Bytes) : Sys → Prop where
   | init (n : Nat) (dead : Nat → HState) : (∀ a, (dead a).alive = false) →
